@@ -597,6 +597,21 @@ impl<T: Flt> Runner<T> {
                         mask = Some(vec![true; adj(nch, d)]);
                         wrapper = 2;
                     }
+                    Bad::WrapInChans(d) => {
+                        let n = adj(nch, d);
+                        tmp_in.resize(n, vec![T::from64(0.25); in_frames]);
+                        wrapper = 1;
+                    }
+                    Bad::WrapInShort(c, how) => {
+                        let k = short(before.in_next, how);
+                        tmp_in[c as usize].truncate(k);
+                        wrapper = 1;
+                    }
+                    Bad::WrapPartialInChans(d) => {
+                        let n = adj(nch, d);
+                        tmp_in.resize(n, vec![T::from64(0.25); in_frames]);
+                        wrapper = 3;
+                    }
                     Bad::MaskedInShort(m, c) => {
                         let mv: Vec<bool> = (0..nch).map(|i| (m >> i) & 1 == 1).collect();
                         for i in 0..nch {
@@ -633,9 +648,10 @@ impl<T: Flt> Runner<T> {
                     1 => r.process(&tmp_in[..], mask_opt).map(|v| {
                         (0usize, v.iter().map(|c| c.len()).min().unwrap_or(0))
                     }),
-                    _ => r.process_partial(Some(&tmp_in[..]), mask_opt).map(|v| {
+                    2 => r.process_partial(Some(&tmp_in[..]), mask_opt).map(|v| {
                         (0usize, v.iter().map(|c| c.len()).min().unwrap_or(0))
                     }),
+                    _ => r.process_partial_into_buffer(Some(&tmp_in[..]), &mut tmp_out[..], mask_opt),
                 }));
                 call_alloc = alloc::now().since(&c0);
                 for ch in tmp_out.iter() {
